@@ -174,8 +174,36 @@ func emitBuiltins(b *strings.Builder, name string, t [][4]string) {
 //     literals and of one and the same expression (the tag): the run is re-emitted as one format with %s for the tag.
 //
 // Anything else yields no format, and the theorems over it fail to check.
+// stringConsts: the string constants declared in the file (package level or inside functions): name -> value
+var stringConsts map[string]string
+
+func collectStringConsts(f *ast.File) {
+	stringConsts = map[string]string{}
+	ast.Inspect(f, func(n ast.Node) bool {
+		gd, ok := n.(*ast.GenDecl)
+		if !ok || gd.Tok != token.CONST {
+			return true
+		}
+		for _, sp := range gd.Specs {
+			vs, ok := sp.(*ast.ValueSpec)
+			if !ok {
+				continue
+			}
+			for i, id := range vs.Names {
+				if i < len(vs.Values) {
+					if s, ok := strLit(vs.Values[i]); ok {
+						stringConsts[id.Name] = s
+					}
+				}
+			}
+		}
+		return true
+	})
+}
+
 func sprintfFormats(file, fn, needle string) []string {
 	f := parse(file)
+	collectStringConsts(f)
 	var out []string
 	for _, d := range f.Decls {
 		fd, ok := d.(*ast.FuncDecl)
@@ -339,6 +367,14 @@ func concatFormat(e ast.Expr, operand *string) (string, bool) {
 		}
 		return "", false
 	case *ast.Ident, *ast.SelectorExpr:
+		if id, ok := e.(*ast.Ident); ok {
+			if v, isConst := stringConsts[id.Name]; isConst {
+				if strings.Contains(v, "%") {
+					return "", false
+				}
+				return v, true
+			}
+		}
 		if *operand == "" {
 			*operand = exprString(e)
 		}
